@@ -61,7 +61,7 @@ DefaultOK(f) ==      \* the default inhabits the declared type
 ResolvedOK(f, rd) ==
   /\ rd.status = "ok" /\ rd.same_class
   /\ DefaultOK([f EXCEPT !.dflt = rd.value])
-  /\ (f.hasd => rd.value = f.dflt)
+  /\ rd.value = DefaultOf(f)      \* Kafka's rule: the explicit default, else empty / null / zero, field by field
 
 FieldFails(c, d) ==
   LET f == d.fs IN
